@@ -532,8 +532,30 @@ func (ev *intEval) split(t *Term, neg bool) error {
 		if hi.Cmp(ev.pc.hi) < 0 {
 			ev.pc.hi = hi
 		}
+	case token.EQL, token.NEQ:
+		// x == v or x != v with v = -c/s: representable when v is an end point of the piece (or outside it)
+		q, r := new(big.Int).QuoRem(nc, s, new(big.Int))
+		integral := r.Sign() == 0
+		inside := integral && q.Cmp(ev.pc.lo) >= 0 && q.Cmp(ev.pc.hi) <= 0
+		if tok == token.EQL {
+			if !inside {
+				ev.pc = piece{big.NewInt(1), big.NewInt(0)}
+			} else {
+				ev.pc = piece{new(big.Int).Set(q), new(big.Int).Set(q)}
+			}
+			return nil
+		}
+		switch {
+		case !inside:
+		case q.Cmp(ev.pc.lo) == 0:
+			ev.pc.lo = new(big.Int).Add(q, big.NewInt(1))
+		case q.Cmp(ev.pc.hi) == 0:
+			ev.pc.hi = new(big.Int).Sub(q, big.NewInt(1))
+		default:
+			return e4fail("inequality branch that removes an interior value of the piece: %s", pretty(t))
+		}
 	default:
-		return e4fail("equality branch on the sample: %s", pretty(t))
+		return e4fail("unsupported comparison on the sample: %s", pretty(t))
 	}
 	return nil
 }
